@@ -109,7 +109,7 @@ Lemma enum_head_written key name p items tc X :
   enum_key key ->
   (match p with Some p => base_ok p (ktok LBRACE :: enum_body_toks items tc ++ X) | None => True end) ->
   Forall wenum_ok items -> (items = [] -> tc = false) ->
-  class_stmt_head false (enum_toks key name p items tc ++ X)
+  class_stmt_head false false (enum_toks key name p items tc ++ X)
   = CHEnum mods0 key (Some name) (option_map pn2_out p) (map strip_e items) X.
 Proof.
   intros Hk Hb H1 H2. unfold enum_toks. rewrite <- app_assoc. cbn [app]. rewrite <- app_assoc. cbn [app]. try rewrite <- app_assoc.
@@ -152,7 +152,7 @@ Proof. intros [E|[E|E]]; subst key; cbn [map app]; eexists; eexists; (split; [re
 
 (* one step at an enum definition, in either scope *)
 Lemma body_step_enum_c k' n f dt cls dcls acc aid t r m key name b items r1 :
-  is_decl_head t -> class_stmt_head false (t :: r) = CHEnum m key (Some name) b items r1 ->
+  is_decl_head t -> class_stmt_head false false (t :: r) = CHEnum m key (Some name) b items r1 ->
   body (S k') n f dt (Some (cls, dcls)) acc aid (t :: r)
   = match finish_class n f true false false false m cls dcls name (m_const m) (m_volatile m) r1 with
     | DErr e => DErr e
@@ -165,7 +165,7 @@ Lemma body_step_enum_c k' n f dt cls dcls acc aid t r m key name b items r1 :
 Proof. intros Hh Hc. unfold is_decl_head in Hh. cbn [body]. rewrite Hh, Hc. reflexivity. Qed.
 
 Lemma body_step_enum_n k' n f dt aid t r m key name b items r1 :
-  is_decl_head t -> class_stmt_head false (t :: r) = CHEnum m key (Some name) b items r1 ->
+  is_decl_head t -> class_stmt_head false false (t :: r) = CHEnum m key (Some name) b items r1 ->
   body (S k') n f dt None 0 aid (t :: r)
   = match finish_class n f false false false false m anon_base anon_base name (m_const m) (m_volatile m) r1 with
     | DErr e => DErr e
